@@ -152,7 +152,22 @@ fn writer_b(m: &M, me: u64, span: u64, ops: u64) -> Stats {
     for i in 0..ops {
         let g = m.guard();
         let k = (i * 5 + 1) % span;
-        if i % 2 == 0 {
+        if i % 3 == 2 {
+            // removal through compute_if_present (its own unlink code)
+            let mut other = false;
+            let mut sum = 0;
+            m.compute_if_present(
+                &key(k, me),
+                |kk, c| {
+                    other |= chk_k(kk, me, &mut sum);
+                    other |= chk_v(c, me, &mut sum);
+                    None
+                },
+                &g,
+            );
+            st.compute_arg += other as u64;
+            st.sum = st.sum.wrapping_add(sum);
+        } else if i % 3 == 0 {
             if let Some(o) = m.remove(&key(k, me), &g) {
                 st.remove += chk_v(o, me, &mut st.sum) as u64;
             }
@@ -373,6 +388,52 @@ fn main() {
             spawn!(|m: &M| grower(m, 1, pre, ops));
             spawn!(|m: &M| getter(m, 2, pre + ops, ops * 4));
             spawn!(|m: &M| getter(m, 3, pre + ops, ops * 4));
+        }
+        // a node that is re-published by an unlink: the bin is a list 0 -> 1 (prefill); the writer
+        // appends a fresh node 2, removes the middle node 1 through compute_if_present, restores;
+        // a reader that only ever looks for key 1 never follows 1.next, so the only way it reaches
+        // the fresh node is the store that unlinked 1 (variants: remove and remove_entry as unlinkers)
+        "unlink" => {
+            spawn!(move |m: &M| {
+                let mut st = Stats::default();
+                let g = m.guard();
+                for i in 0..ops {
+                    m.insert(key(2, 1), val(2000 + i, 1), &g);
+                    match i % 3 {
+                        0 => {
+                            m.compute_if_present(&key(1, 1), |_, _| None, &g);
+                        }
+                        1 => {
+                            m.remove(&key(1, 1), &g);
+                        }
+                        _ => {
+                            m.remove_entry(&key(1, 1), &g);
+                        }
+                    }
+                    if let Some(o) = m.remove(&key(2, 1), &g) {
+                        st.remove += chk_v(o, 1, &mut st.sum) as u64;
+                    }
+                    m.insert(key(1, 1), val(1000 + i, 1), &g);
+                }
+                st
+            });
+            for r in 0..2u64 {
+                spawn!(move |m: &M| {
+                    let me = 2 + r;
+                    let mut st = Stats::default();
+                    let g = m.guard();
+                    for _ in 0..ops * 12 {
+                        // key comparisons on the way read the payload-free part of every node passed;
+                        // a hit reads the payloads
+                        if let Some((kk, v)) = m.get_key_value(&key(1, me), &g) {
+                            let a = chk_k(kk, me, &mut st.sum);
+                            let b = chk_v(v, me, &mut st.sum);
+                            st.get_kv += (a || b) as u64;
+                        }
+                    }
+                    st
+                });
+            }
         }
         // one writer inserts, bin by bin, a key whose insertion rotates the tree; `ops` (1-3)
         // readers keep looking that key up in the bin the writer is about to change: a reader
